@@ -272,7 +272,13 @@ class Side:
                 plen = -1
             if ints[0] == codec.K_MD:
                 plen = 0      # Metadata length is not modelled (exempt from the length bound)
-            extra = [len(ints)] + ints + [plen]
+            # every emitted PDU must serialise to a parsable PDU that reads back the same
+            ok = 0
+            try:
+                ok = 1 if codec.enc_pdu(codec.reparse(p), self.w.pm) == ints else 0
+            except Exception:  # noqa: BLE001
+                ok = 0
+            extra = [len(ints)] + ints + [plen, ok]
         self.record([2], exc, ret, extra)
         return holder
 
